@@ -5,4 +5,5 @@
 #include "bitmap.loops.h"
 #include HWLOC_VERIF_SRC_BITMAP
 #include "bitmap.contracts.h"
+#include "bitmap.quant.h"
 #include "bitmap.harness.c"
